@@ -31,7 +31,8 @@ import common
 
 N_DEFAULT = 4
 # utterance ids in map order; later ids are substrings of earlier ones on purpose (ids are matched whole, not as text)
-NAMES = ["zz_u1", "u1y", "u1", "1", "q5", "5"]
+# (... and an id is any run of non-blank characters: "#u1" is an utterance, not a comment)
+NAMES = ["zz_u1", "#u1", "u1", "1", "q5", "5"]
 
 
 def name(k):
@@ -447,6 +448,9 @@ def run(tier, seed):
         for _ in range(10 if tier == "quick" else 80):
             a, b = rng.choice(kinds), rng.choice(kinds)
             doubles.append(["%s:%d:%s" % (a[0], rng.randrange(n), a[1]), "%s:%d:%s" % (b[0], rng.randrange(2), b[1])])
+        # a resumed run killed before its first manifest line: what earlier runs listed stays listed
+        doubles += [["after_manifest_print:1:hard", "before_save:0:hard"], ["after_manifest_print:2:soft", "after_save:0:hard"],
+                    ["after_save:2:hard", "before_save:0:mid"]]
         schedules += doubles
         if tier == "thorough":
             for _ in range(40):
